@@ -39,7 +39,31 @@ type EncodeOptions struct {
 //
 // The behavior of the encoder can be customized by setting fields in the EncodeOptions struct before calling this method.
 func (cfg EncodeOptions) Encode(n datamodel.Node, w io.Writer) error {
-	return Marshal(n, json.NewEncoder(w, json.EncodeOptions{}), cfg)
+	// The refmt json encoder does not check the results of its writes,
+	// so remember the first write error here and report it.
+	ew := &errTrackingWriter{w: w}
+	if err := Marshal(n, json.NewEncoder(ew, json.EncodeOptions{}), cfg); err != nil {
+		return err
+	}
+	return ew.err
+}
+
+// errTrackingWriter passes writes through until one fails,
+// then remembers that error and refuses further writes.
+type errTrackingWriter struct {
+	w   io.Writer
+	err error
+}
+
+func (ew *errTrackingWriter) Write(p []byte) (int, error) {
+	if ew.err != nil {
+		return 0, ew.err
+	}
+	n, err := ew.w.Write(p)
+	if err != nil {
+		ew.err = err
+	}
+	return n, err
 }
 
 // Future work: we would like to remove the Marshal function,
